@@ -689,19 +689,23 @@ theorem derives_shorthand (ss : Selections) (pos : Pos) {tsSS : List Tok}
   refine (Derives.nt (n := NT.operationDefinition) (Derives.canon (f := dropBareQuery) hbody)).cast rfl ?_
   simp [printOperation, OperationDef.isBare, kwQuery, printSelectionSet, dropBareQuery_brace]
 
-/-- `parseOperationType`: the filled look-ahead, a Name `query` / `mutation` / `subscription`, is consumed -/
-theorem spec_parseOperationType : Spec parseOperationType (fun op a a' => a.pk = true → a.σ.head.kind = .name →
+/-- `parseOperationType`: the filled look-ahead is consumed, and it is a Name `query` / `mutation` /
+    `subscription` -/
+theorem spec_parseOperationType : Spec parseOperationType (fun op a a' => a.pk = true →
     ∃ t, Ate a a' [t] ∧ Tok.ofToken t = tName op ∧ (op = str "query" ∨ op = str "mutation" ∨ op = str "subscription")) := by
   unfold parseOperationType
-  refine (Spec.bind spec_next fun tok => Spec.ite (fun _ => Spec.pure kwQuery) fun _ =>
+  refine (Spec.bind (spec_next.and spec_next_head) fun tok => Spec.ite (fun _ => Spec.pure kwQuery) fun _ =>
     Spec.ite (fun _ => Spec.pure kwMutation) fun _ => Spec.ite (fun _ => Spec.pure kwSubscription) fun _ =>
       Spec.of_dead_bind (R := fun _ _ _ => False) (failAt_dead _ _)).mono ?_
-  rintro op a a'' hne ⟨tok, a1, hn, h⟩ hpk hk
-  obtain ⟨e1, e2, e3⟩ := next_eats hne hpk hk (by decide) (by decide) hn
+  rintro op a a'' hne ⟨tok, a1, ⟨hn, hh⟩, h⟩ hpk
+  have hk : tok.kind = .name → a.σ.head.kind = .name := fun h => by rw [← hh hpk]; exact h
   rcases h with ⟨hc, rfl, rfl⟩ | ⟨_, ⟨hc, rfl, rfl⟩ | ⟨_, ⟨hc, rfl, rfl⟩ | ⟨_, hf⟩⟩⟩
-  · exact ⟨tok, e2, by simp [Tok.ofToken, tName, hc.1, hc.2], .inl rfl⟩
-  · exact ⟨tok, e2, by simp [Tok.ofToken, tName, hc.1, hc.2], .inr (.inl rfl)⟩
-  · exact ⟨tok, e2, by simp [Tok.ofToken, tName, hc.1, hc.2], .inr (.inr rfl)⟩
+  · obtain ⟨e1, e2, e3⟩ := next_eats hne hpk (hk hc.1) (by decide) (by decide) hn
+    exact ⟨tok, e2, by simp [Tok.ofToken, tName, hc.1, hc.2], .inl rfl⟩
+  · obtain ⟨e1, e2, e3⟩ := next_eats hne hpk (hk hc.1) (by decide) (by decide) hn
+    exact ⟨tok, e2, by simp [Tok.ofToken, tName, hc.1, hc.2], .inr (.inl rfl)⟩
+  · obtain ⟨e1, e2, e3⟩ := next_eats hne hpk (hk hc.1) (by decide) (by decide) hn
+    exact ⟨tok, e2, by simp [Tok.ofToken, tName, hc.1, hc.2], .inr (.inr rfl)⟩
   · exact hf.elim
 
 /-- an operation definition: position of its first token, derivation, well-formedness -/
@@ -766,7 +770,7 @@ theorem spec_parseOperationDefinition (n : Nat) :
       rcases hkind with h | h
       · exact h
       · exact absurd h hk
-    obtain ⟨t1, e1, e2, e3⟩ := hop rfl hkn
+    obtain ⟨t1, e1, e2, e3⟩ := hop rfl
     have hne3 : a3.σ.NoEof := e1.noEof hne
     obtain ⟨f1, f2, f3⟩ := next_eats (a := { a3 with pk := true }) (k := .name) hne3 rfl hk2 (by decide) (by decide) hn
     have hnm : tn.value ≠ [] := f3.2.2 (f1 ▸ hk2)
@@ -780,7 +784,7 @@ theorem spec_parseOperationDefinition (n : Nat) :
       rcases hkind with h | h
       · exact h
       · exact absurd h hk
-    obtain ⟨t1, e1, e2, e3⟩ := hop rfl hkn
+    obtain ⟨t1, e1, e2, e3⟩ := hop rfl
     refine ⟨_, (Ate.peeked a).trans ((Ate.peeked _).trans (e1.trans ((Ate.peeked a3).trans h3))),
       ⟨t1, _, rfl, ?_⟩, ?_, e3, q2, q3.1, q3.2.1⟩
     · rw [hpos]; exact congrArg Token.start e1.head
